@@ -298,7 +298,7 @@ func checkC08(w *World, r *Report) {
 		a := ncva2.Args()
 		vestedSame := a[2] == ssa.Value(amtP) || DerivesVia(a[2], amtP, "types.Coins.Sort")
 		r.Check(vestedSame, "C08.same", "direct creation: coins vested are the message's coins", w.Pos(ncva2.Instr.Pos()), "amount (sorted) passed as original vesting", "the vested coins differ from the given coins")
-		r.Check(coinsArg(xfer2) == ssa.Value(amtP), "C08.same", "direct creation: coins transferred are the message's coins", w.Pos(xfer2.Instr.Pos()), "same parameter", "the transferred coins differ from the given coins")
+		r.Check(coinsArg(xfer2) == ssa.Value(amtP) || DerivesVia(coinsArg(xfer2), amtP, "types.Coins.Sort"), "C08.same", "direct creation: coins transferred are the message's coins", w.Pos(xfer2.Instr.Pos()), "same parameter", "the transferred coins differ from the given coins")
 		r.Check(a[3] == ssa.Value(stP) && a[4] == ssa.Value(enP), "C08.schedule", "direct creation: start and end passed through unchanged", w.Pos(ncva2.Instr.Pos()), "parameters forwarded", "start/end are altered on the way to the account")
 		r.Check(OnSuccessEdge(cva, xfer2.Instr, siteValue(ncva2)), "C08.fresh", "direct creation: transfer only after the account was created", w.Pos(xfer2.Instr.Pos()), "dominated by the success edge of the creation", "coins are sent although the account creation failed")
 		// recipient identity
